@@ -181,6 +181,15 @@ PROPERTIES["C07"] = dict(
     assumptions=[],
 )
 
+PROPERTIES["C14"] = dict(
+    units=["handler", "panic_bytes"],
+    technique="Verus contracts on the extracted real functions (request/response views; fwd_ok precondition of the upstream primitive); Kani full-domain harness for the per-byte body map",
+    level_text="Handler-level transparency, proved for all requests/responses: the request handed to the upstream write primitive has the client's method and URI, a body equal to all the bytes collected from the client's body, and every client header except the three proxy-owned names unchanged (fwd_ok); forward_response returns the upstream status, the upstream headers with only the marker header set, and the upstream body mapped frame by frame through a closure whose per-byte function is proved to be the identity on all 256 byte values (Kani, loop-free, full domain).",
+    level_note="Partial claim (handler level). Assumed: hyper serialises the Request/Response it is given and may regenerate framing/Date headers; http::HeaderMap semantics; the map_frame/boxed plumbing (E9 statement range) applies the verified per-byte closure to data frames; a non-data frame (trailers) is replaced by an empty data frame. Not covered: chunking/framing, trailers, keep-alive ordering and response-to-request pairing (hyper/tokio behaviour), body sizes near the limit at the socket level.",
+    design_ref="DESIGN.md section 3 C14",
+    assumptions=[],
+)
+
 NOT_APPLICABLE = {
     "C12": "secrecy over all outputs is a hyper-property (non-interference); no function contract expressible in Verus/Kani/CBMC here decides 'does not depend on the key' for format!/Display-built text, and a syntactic taint scan is a different family (DESIGN.md section 4)",
 }
